@@ -36,6 +36,7 @@ Bind(k) == CASE k = 0 -> KindBind
              [] k = 5 -> <<[n |-> "a", v |-> I(6)], [n |-> "b", v |-> I(0)], [n |-> "c", v |-> I(3)], [n |-> "d", v |-> I(2)]>>
              [] k = 6 -> <<[n |-> "a", v |-> I(1)], [n |-> "b", v |-> S("s")], [n |-> "c", v |-> F(1, 1)], [n |-> "d", v |-> B(TRUE)]>>
              [] k = 7 -> <<[n |-> "a", v |-> IMax(0)], [n |-> "b", v |-> I(1)], [n |-> "c", v |-> IMin(0)], [n |-> "d", v |-> I(-1)]>>
+             [] k = 9 -> <<[n |-> "a", v |-> F(-3, 1)], [n |-> "b", v |-> F(1, 2)], [n |-> "c", v |-> F(1, 0)], [n |-> "d", v |-> F(0, 0)]>>
              [] k = 8 -> <<[n |-> "a", v |-> A(<<I(10), I(20), I(30)>>)], [n |-> "b", v |-> I(2)],
                            [n |-> "c", v |-> O(<<[pk |-> "k", pv |-> I(5)], [pk |-> "Name", pv |-> O(<<[pk |-> "k", pv |-> I(7)]>>)]>>)],
                            [n |-> "d", v |-> I(1)]>>
@@ -78,6 +79,15 @@ Faults == {Var("zz"), Bin("+", A_, Var("zz")), Bin("*", Var("zz"), A_), BigLit, 
           \cup {Bin(o, A_, l) : o \in Ops, l \in {StrL("s"), FloatL(3, 1), BoolL(TRUE), NilL}}
           \cup {Bin(o, l, A_) : o \in Ops, l \in {StrL("s"), FloatL(3, 1), BoolL(TRUE), NilL}}
 
+\* purity: operators yield new values and never change their operands -- the same variable read twice in one
+\* expression, and again in a later {{ }} block
+Reuse == {Bin(o, Post(p, A_), A_) : o \in {"+", "-", "*", "==", "<"}, p \in {"++", "--"}}
+    \cup {Bin(o, A_, Post(p, A_)) : o \in {"+", "-", "*", "==", "<"}, p \in {"++", "--"}}
+    \cup {Bin("+", Pre("-", A_), A_), Bin("-", A_, Pre("-", A_)), Bin("*", Post("--", A_), Post("--", A_)), Tern(Post("--", A_), A_, B_),
+          Bin("+", Bin("+", Post("++", A_), Post("++", A_)), A_)}
+Multi == {<<Post(p, A_), A_, Post(p, A_), A_>> : p \in {"++", "--"}} \cup {<<Pre("-", A_), A_>>, <<Bin("+", A_, B_), A_, B_>>,
+         <<Bin("*", A_, IntL(2)), A_>>, <<Tern(A_, Post("--", A_), A_), A_>>, <<Post("--", Post("--", A_)), A_>>}
+
 \* ---- token-first families: flat operator sequences, grouped by the specification's own Pratt parser ----
 W(n) == T("word", n)
 Flat2 == {<<W("a"), T("op", o1), W("b"), T("op", o2), W("c")>> : o1 \in Ops, o2 \in Ops}
@@ -111,13 +121,18 @@ Cases ==
     [] Family = "assign"  -> {[kind |-> "assign", e |-> e, b |-> b, lay |-> l] : e \in Pairs \cup Terns \cup Mixed, b \in {1, 3}, l \in {"sp", "tight"}}
     [] Family = "kindsinfix" -> {[kind |-> "tree", e |-> e, b |-> 0, lay |-> "sp"] : e \in KindsInfix}
     [] Family = "kindsother" -> {[kind |-> "tree", e |-> e, b |-> 0, lay |-> l] : e \in KindsOther, l \in {"sp", "tight"}}
+    [] Family = "reuse"   -> {[kind |-> "tree", e |-> e, b |-> b, lay |-> l] : e \in Reuse, b \in {1, 2, 3, 9}, l \in {"sp", "tight"}}
+                             \cup {[kind |-> "multi", es |-> es, b |-> b, lay |-> "sp"] : es \in Multi, b \in {1, 2, 3, 9}}
     [] Family = "flat2"   -> {[kind |-> "toks", ts |-> ts, b |-> b, lay |-> l] : ts \in Flat2 \cup FlatLit, b \in {1, 2, 3, 4, 5, 6, 7}, l \in {"sp", "tight", "wide"}}
     [] Family = "flat3"   -> {[kind |-> "toks", ts |-> ts, b |-> b, lay |-> l] : ts \in Flat3, b \in {1, 2, 5}, l \in {"sp"}}
 
-TreeOf(c) == IF c.kind \in {"tree", "assign"} THEN c.e ELSE Parse(c.ts)
+TreeOf(c) == IF c.kind \in {"tree", "assign"} THEN c.e ELSE IF c.kind = "multi" THEN c.es[1] ELSE Parse(c.ts)
+RECURSIVE MultiSrc(_)
+MultiSrc(es) == IF es = <<>> THEN "" ELSE "{{ " \o Source(es[1], "sp") \o " }}" \o (IF Len(es) = 1 THEN "" ELSE "|" \o MultiSrc(Tail(es)))
 \* C01: the right-hand side of an assignment is a complete expression
 SrcOf(c) == CASE c.kind = "tree" -> PrintSrc(c.e, c.lay)
               [] c.kind = "raw" -> c.src
+              [] c.kind = "multi" -> MultiSrc(c.es)
               [] c.kind = "assign" -> Open(c.lay) \o JoinToks(<<T("word", "x"), T("assign", "=")>> \o Toks(c.e), c.lay) \o Close(c.lay)
                                       \o "|{{ x }}"
               [] OTHER -> Open(c.lay) \o JoinToks(c.ts, c.lay) \o Close(c.lay)
@@ -140,10 +155,18 @@ ExpectAssign(v) == IF IsErr(v) THEN [kind |-> "err", why |-> v.why]
                    ELSE IF IsUnspec(v) \/ ~Printable(v) THEN [kind |-> "any"]
                    ELSE [kind |-> "out", out |-> "|" \o Show(v)]
 
+RECURSIVE MultiOut(_, _)
+MultiOut(es, sc) == IF es = <<>> THEN [ok |-> TRUE, out |-> ""]
+                    ELSE LET v == Ev(es[1], sc) IN
+                         IF Bad(v) \/ ~Printable(v) THEN [ok |-> FALSE, bad |-> v]
+                         ELSE LET r == MultiOut(Tail(es), sc) IN
+                              IF ~r.ok THEN r ELSE [ok |-> TRUE, out |-> Show(v) \o (IF Len(es) = 1 THEN "" ELSE "|" \o r.out)]
+ExpectMulti(c) == LET r == MultiOut(c.es, <<Bind(c.b)>>) IN
+                  IF r.ok THEN [kind |-> "out", out |-> r.out] ELSE IF IsErr(r.bad) THEN [kind |-> "err", why |-> r.bad.why] ELSE [kind |-> "any"]
 Record(c) == LET t == IF c.kind = "raw" THEN NilL ELSE TreeOf(c)
                  v == Ev(t, <<Bind(c.b)>>) IN
              [src |-> SrcOf(c), data |-> EncData(Bind(c.b)),
-              expect |-> IF c.kind = "raw" THEN [kind |-> "any"] ELSE IF c.kind = "assign" THEN ExpectAssign(v) ELSE Expect(v),
+              expect |-> IF c.kind = "raw" THEN [kind |-> "any"] ELSE IF c.kind = "multi" THEN ExpectMulti(c) ELSE IF c.kind = "assign" THEN ExpectAssign(v) ELSE Expect(v),
               tags |-> <<Family, c.lay>>]
 
 Init == case \in Cases /\ rec = [src |-> ""]
